@@ -5,8 +5,8 @@
 set -eu
 K=$1; ID=$2
 case $K in
-  s4|s5) T=/verif/tools/agents/seed_round4_prompt_template.txt;;
-  bh|bh2) T=/verif/tools/agents/bughunt_prompt_template.txt;;
+  s4|s5|s6) T=/verif/tools/agents/seed_round4_prompt_template.txt;;
+  bh|bh2|bh3) T=/verif/tools/agents/bughunt_prompt_template.txt;;
   rf) T=/verif/tools/agents/refactor_round4_prompt_template.txt;;
   *) echo "kind?"; exit 2;;
 esac
